@@ -377,6 +377,7 @@ class Sim(object):
                 return
             if k == 'call':
                 act['fn'](self)
+                self.snapshot()         # (still quiescent: the snapshot 'before the next action' must exist)
                 continue
             if k == 'tick':
                 self.now += act['dt']
